@@ -1060,8 +1060,36 @@ fn gen_settings(rng: &mut Rng, sw: &Swarm, comps: &[Component]) -> SettingsDesc 
         // placed inside it would not fire
         let all: Vec<&(String, Value)> = comps.iter().flat_map(|c| c.defs.iter()).collect();
         if !all.is_empty() {
-            let (key, _) = rng.pick(&all);
-            let name = pascal(key);
+            // definitions that some anyOf/oneOf names as a bare alternative are
+            // preferred: the enclosing enum has to cope with an opaque member
+            fn alternatives(v: &Value, out: &mut Vec<String>) {
+                match v {
+                    Value::Object(o) => {
+                        for key in ["anyOf", "oneOf"] {
+                            if let Some(Value::Array(subs)) = o.get(key) {
+                                for sub in subs {
+                                    if let Some(Value::String(r)) = sub.get("$ref") {
+                                        if let Some(n) = r.strip_prefix("#/definitions/") {
+                                            out.push(n.to_string());
+                                        }
+                                    }
+                                }
+                            }
+                        }
+                        for x in o.values() {
+                            alternatives(x, out);
+                        }
+                    }
+                    Value::Array(a) => a.iter().for_each(|x| alternatives(x, out)),
+                    _ => {}
+                }
+            }
+            let mut alts = Vec::new();
+            for (_, d) in &all {
+                alternatives(d, &mut alts);
+            }
+            let key: String = if !alts.is_empty() && rng.chance(2, 3) { rng.pick(&alts).clone() } else { rng.pick(&all).0.clone() };
+            let name = pascal(&key);
             if !s.patches.iter().any(|p| p.name == name) {
                 s.replaces.push(ReplaceDesc { name, with: "::serde_json::Value".into() });
             }
